@@ -17,8 +17,16 @@ THEOREMS = ["QExPy.Plot.C19_mask", "QExPy.Plot.C19_mask_none", "QExPy.Plot.C19_d
 RULE = ("seeded plot HISTORIES: 1-9 objects added in random order to one Plot, which is rendered, "
         "then (85 % of the cases) further objects are added and/or the plot's x-range, the error-bar / "
         "residual / legend switches and the label overrides are changed and it is rendered again "
-        "(2 or 3 renders); every render is compared with the model's render of the plot state at "
-        "that point. Objects: data sets (x/y uncertainties none / common / per point; names, units; "
+        "(2 to 4 renders; a step may also be a plain re-render); between the renders matplotlib's own "
+        "state follows one of five policies -- the figures of the earlier renders stay open and "
+        "current (the default of a user who calls savefig again), all figures closed, only the "
+        "plot's own figure closed, a figure the user drew with pyplot is open and current, another "
+        "qexpy Plot with a residual panel was rendered and is still open -- and the last two may "
+        "also hold before the first render; every switch is flipped forth and back between "
+        "renders of one plot under every policy deliberately in every run; every render is "
+        "compared with the model's render of the plot state at that point, and the figure that "
+        "savefig wrote must consist of exactly the plot's panels (main; residuals iff the switch "
+        "is on). Objects: data sets (x/y uncertainties none / common / per point; names, units; "
         "passed as arrays, XYDataSet or MeasurementArrays; x-ranges with bounds exactly on points, "
         "between points, outside), functions (8 formula families, plain-number and measured "
         "parameters, own range or the plot domain), fit results of every pre-set model and a custom "
@@ -151,6 +159,17 @@ def judge(case, o, m):
     M = split_model(m["cmds"])
     main_src, res_src, band_src, bar_src = sources(case)
     A, R = o["main"], o["res"]
+    # ---------------- the figure that was written is this plot's figure: the main panel, and the
+    # residual panel exactly when the switch is on (whatever was rendered or left open before)
+    F = o.get("figure")
+    if F is not None and (not F["own"] or F["n_axes"] != (2 if case["residuals"] else 1)):
+        fail("saved-figure", "the figure written by savefig has {} axes{}; the plot has a main panel "
+             "{} a residual panel (residuals switch = {})".format(
+                 F["n_axes"], "" if F["own"] else " which are not the plot's main_ax / res_ax",
+                 "and" if case["residuals"] else "and no", case["residuals"]),
+             impl=F, expected={"n_axes": 2 if case["residuals"] else 1, "own": True},
+             clause="residuals switch / rendering through savefig")
+        return fails, False
     # ---------------- structure
     got = (len(A["lines"]), len(A["bands"]), len(A["bars"]), len(R["lines"]) if R else 0)
     exp = (len(M["main"]), len(M["bands"]), len(M["bars"]), len(M["res"]))
@@ -568,10 +587,23 @@ def run_cases(ctx, cases):
                 dist["function:" + ("own-range" if ob["range"] else "plot-domain")] += 1
         dist["nobj:{}".format(len(c["objs"]))] += 1
         dist["history:renders={}".format(1 + len(c.get("steps", [])))] += 1
+        if c.get("pre"):
+            dist["before-first-render:" + c["pre"]] += 1
+        if c.get("deliberate"):
+            dist["deliberate:" + c["deliberate"]] += 1
+        prev_res = c["residuals"]
         for st in c.get("steps", []):
             dist["step:adds-objects"] += 1 if st.get("add") else 0
             for k_ in st.get("set", {}):
                 dist["step:sets-" + k_] += 1
+            pol = st.get("mpl", "close-all")
+            dist["between-renders:" + pol] += 1
+            if not st.get("add") and not st.get("set"):
+                dist["step:plain-re-render"] += 1
+            if "residuals" in st.get("set", {}) and pol != "close-all":
+                dist["residual-switch-flipped-while-earlier-figure-open:{}->{}".format(
+                    prev_res, st["set"]["residuals"])] += 1
+            prev_res = st.get("set", {}).get("residuals", prev_res)
         case_failed = False
         for k, (rno, state, ok_) in enumerate(rend[i]):
             dist["renders"] += 1
@@ -593,6 +625,8 @@ def run_cases(ctx, cases):
             failures += fs
             if sk:
                 skipped += 1
+                if "skip" in ok_:
+                    dist["skipped:" + ok_["skip"].split(" (")[0].split(":")[0]] += 1
             if len(r) > 2:
                 for kk, v in r[2].items():
                     dist[kk] += v
@@ -612,17 +646,24 @@ def run_cases(ctx, cases):
             "samples": samples, "distribution": dict(dist), "skipped": skipped}
 
 
+def gen_cases(ctx, n):
+    cases = [G.gen_history(ctx.rng) for _ in range(n)]
+    # scenario classes generated deliberately in every run (counted in the evidence): every switch
+    # flipped forth and back between renders of ONE plot under every policy for the figures of
+    # the earlier renders; plain re-renders
+    cases += G.deliberate_histories(ctx.rng, ctx.n(2, 12))
+    return cases
+
+
 def correspond(ctx):
-    cases = [G.gen_history(ctx.rng) for _ in range(ctx.n(96, 3000))]
-    return run_cases(ctx, cases)
+    return run_cases(ctx, gen_cases(ctx, ctx.n(96, 3000)))
 
 
 def search(ctx, broken):
     """independent oracles only: result.fit_function / result.residuals / the values returned by
     hist() / numpy.histogram on the same arguments / brute-force sample totals, all read from
     the real API"""
-    cases = [G.gen_history(ctx.rng) for _ in range(ctx.n(96, 600))]
-    r = run_cases(ctx, cases)
+    r = run_cases(ctx, gen_cases(ctx, ctx.n(96, 600)))
     return {"failures": [f for f in r["failures"] if f.get("oracle") == "independent"],
             "strategy": ["API-level oracles (fit_function, residuals, returned histogram, "
                          "numpy.histogram, sample totals, rendering must not raise) on {} plot "
